@@ -23,6 +23,7 @@ fn any_coord() -> i8 {
 // @fn is_backface
 // @bound integer screen coordinates |c| <= 8 (all products exact in f32)
 // @clause the winding test is the sign of the screen-space signed area: is_backface is true iff (v1-v0) x (v2-v0) > 0, so for a triangle of non-zero area exactly one of its two vertex orders is a back face (swapping two vertices flips the answer) and a zero-area triangle is never a back face
+#[cfg(not(verif_skip_render_is_backface_signed_area))]
 #[kani::proof]
 fn render_is_backface_signed_area() {
     let c = [any_coord(), any_coord(), any_coord(), any_coord(), any_coord(), any_coord()];
@@ -48,6 +49,7 @@ fn key(t: &Tri<ClipVert<u8>>) -> F {
 // @fn depth_sort
 // @bound 3 triangles; complete in the depths (all finite z in [-1e6, 1e6]) and attribute tags
 // @clause depth sorting orders triangles by the sort key the code uses (the sum of the three vertex depths): non-decreasing for FrontToBack, non-increasing for BackToFront; the result is a permutation of the input (every tagged triangle is still present once); so for triangles with disjoint depth ranges BackToFront delivers painter's order
+#[cfg(not(verif_skip_render_depth_sort_orders_by_key))]
 #[kani::proof]
 #[kani::unwind(8)]
 fn render_depth_sort_orders_by_key() {
